@@ -43,6 +43,11 @@ def histories(tier, seed):
         if top == "ldn":
             eq["delta"] = 0.006
         o = {"orthogonal": False, "nx_core": 2, "nx_sol": 2, "finecontour_Nfine": 60, "y_boundary_guards": draw(st.sampled_from([0, 1]))}
+        if draw(st.booleans()):
+            # the defaults of the nonorthogonal_* lengths derive from these two: a regrid that leaves
+            # them out must fall back to the derived values, as a fresh build does
+            o["xpoint_poloidal_spacing_length"] = draw(st.sampled_from([0.02, 0.1]))
+            o["target_all_poloidal_spacing_length"] = draw(st.sampled_from([0.3, 0.6]))
         if top == "usn":
             o.update(ny_inner_divertor=4, ny_outer_divertor=4, ny_sol=8)
         else:
@@ -78,7 +83,7 @@ def histories(tier, seed):
             hist[-1].pop("style", None)  # only the complete dictionary can carry a non-nonorthogonal key
         return {"family": "G", "entry": "regrid-history", "eq": eq, "options": o, "history": hist, "changes_other_setting": other}
 
-    n = 8 if tier == "quick" else 64
+    n = 10 if tier == "quick" else 72
 
     def key(d):
         # the grid is compared with a fresh build after the *last* step only, so what the last step is
@@ -90,7 +95,7 @@ def histories(tier, seed):
             final = "reset"
         else:
             final = "change"
-        k = "final=%s/other=%s" % (final, d["changes_other_setting"])
+        k = "final=%s/other=%s/base-lengths=%s" % (final, d["changes_other_setting"], "xpoint_poloidal_spacing_length" in d["options"])
         return k if tier == "quick" else "%s/%s/%d" % (k, d["eq"]["topology"], len(d["history"]))
 
     return corpus.collect(build(), n, seed + 1500, keyfn=key, oversample=30 if tier == "quick" else 12)
